@@ -199,6 +199,13 @@ def multi_sink_write_case(ctx, rng):
 
     cfg, groups, nss = workloads.multi_sink_case(rng, with_ns=rng.random() < .7)
     dataset = cfg["physical"] != 1
+    if dataset and rng.random() < .3:
+        # a stream of datasets whose FIRST dataset is empty (an empty generic sink cannot tell its arity from its content;
+        # for triples that is outside the domain - DESIGN 7 - for quads both integrations build a QUADS stream)
+        k = rng.choice([0, 0, rng.randrange(len(groups))])
+        groups = [list(g) for g in groups]
+        groups[k] = []
+        ctx.observe("write:multi-sink-with-empty-dataset" + ("-first" if k == 0 else ""))
     stores = [pj.rdflib_store_of(g, n, dataset=dataset) for g, n in zip(groups, nss)]
     # the generic sinks get statements and bindings in the rdflib stores' own iteration order
     sinks = []
